@@ -104,8 +104,10 @@ type oObs struct {
 	Note          string `json:"note"`
 }
 
-func (Outbound) Name() string                    { return "Outbound" }
-func (Outbound) MC(tier string) (string, string) { return "MC_Outbound.tla", "MC_Outbound_" + tier + ".cfg" }
+func (Outbound) Name() string { return "Outbound" }
+func (Outbound) MC(tier string) (string, string) {
+	return "MC_Outbound.tla", "MC_Outbound_" + tier + ".cfg"
+}
 func (Outbound) Trace() (string, string)         { return "Trace_Outbound.tla", "Trace_Outbound.cfg" }
 func (Outbound) Cap(tier string) int             { return 0 }
 func (Outbound) Layouts(tier string) int         { return 1 }
@@ -182,7 +184,7 @@ func strFor(class string, rng *rand.Rand, base string) string {
 
 type oStrings struct {
 	ACS, SPIssuer, IdpIssuer, NameIdFormat, Comparison, NameID, SessionIndex, Status, ReqID, SSO, SLO, SPSLO string
-	Contexts                                                                                          []string
+	Contexts                                                                                                 []string
 }
 
 func stringsFor(class string, rng *rand.Rand, rac string) *oStrings {
